@@ -40,6 +40,43 @@ C["kneeliverse.rdp.mapping"] = dict(
     },
 )
 
+# sorted=False: `removed` is any row permutation of the table (ghost witnesses SIG / SIGINV of the permutation)
+_M = C["kneeliverse.rdp.mapping"]
+_T = "SIG[_last_argsort[%s]]"
+_GAP = lambda j: "reduced[(%s)+1] - reduced[%s] - 1" % (j, j)
+C["kneeliverse.rdp.mapping#unsorted"] = dict(
+    function="kneeliverse.rdp.mapping", owner="C07",
+    params=_M["params"], returns=_M["returns"], locals=_M["locals"],
+    ghost_vars={"SIG": "Seq[Int]", "SIGINV": "Seq[Int]"},
+    requires=REDUCED + [
+        "sorted == False",
+        "len(removed) == len(reduced) - 1",
+        "forall(0, len(removed), lambda j: 0 <= SIG[j] and SIG[j] < len(removed) and SIGINV[SIG[j]] == j)",
+        "forall(0, len(removed), lambda j: 0 <= SIGINV[j] and SIGINV[j] < len(removed) and SIG[SIGINV[j]] == j)",
+        "forall(0, len(removed), lambda j: removed[j][0] == reduced[SIG[j]] and removed[j][1] == reduced[SIG[j]+1] - reduced[SIG[j]] - 1)",
+        "forall(0, len(indexes), lambda k: 0 <= indexes[k] and indexes[k] < len(reduced))",
+        "forall2(0, len(indexes), lambda a, b: indexes[a] <= indexes[b])",
+    ],
+    ensures=_M["ensures"],
+    after={"sorted_removed": [
+        "len(sorted_removed) == len(removed) and len(_last_argsort) == len(removed)",
+        "forall(0, len(removed), lambda k: 0 <= _last_argsort[k] and _last_argsort[k] < len(removed))",
+        "forall(0, len(removed), lambda k: 0 <= %s and %s < len(removed))" % (_T % "k", _T % "k"),
+        "forall(0, len(removed), lambda k: sorted_removed[k][0] == reduced[%s] and sorted_removed[k][1] == %s)" % (_T % "k", _GAP(_T % "k")),
+        "forall2(0, len(removed), lambda a, b: _last_argsort[a] != _last_argsort[b])",
+        "forall2(0, len(removed), lambda a, b: %s != %s)" % (_T % "a", _T % "b"),
+        "forall2(0, len(removed), lambda a, b: reduced[%s] <= reduced[%s])" % (_T % "a", _T % "b"),
+        "forall2(0, len(removed), lambda a, b: %s < %s)" % (_T % "a", _T % "b"),
+        # a strictly increasing map of [0, m) into itself is the identity: two inductions
+        {"induct": ("k", "0", "len(removed)", "%s >= @" % (_T % "@"))},
+        {"induct": ("j", "0", "len(removed)", "%s <= len(removed) - 1 - @" % (_T % "(len(removed) - 1 - @)"))},
+        "forall(0, len(removed), lambda k: %s <= k)" % (_T % "k"),
+        "forall(0, len(removed), lambda k: %s == k)" % (_T % "k"),
+        "forall(0, len(removed), lambda k: sorted_removed[k][0] == reduced[k] and sorted_removed[k][1] == reduced[k+1] - reduced[k] - 1)",
+    ]},
+    loops=_M["loops"],
+)
+
 C["kneeliverse.rdp.compute_removed_points"] = dict(
     params={"points": "Seq[Tup[Real,Real]]", "reduced": "Seq[Int]"},
     returns="Seq[Tup[Int,Int]]",
